@@ -189,7 +189,9 @@ def soup_shard(shard):
         toks = (vocab[first],) + tail
         for joiner in (" ", ""):
             line = joiner.join(toks)
-            for wrap in ("{l}\n", ".data\n{l}\n", "ok: " + ("add x1, x1, x1" if arch == "riscv" else "INC") + "\n{l}\n"):
+            ok = "add x1, x1, x1" if arch == "riscv" else "INC"
+            # the same line first at line 6 of a longer text, then in shorter texts: the outcome of a load must not depend on earlier loads
+            for wrap in (f"{ok}\n\n# c\n{ok}\n  \n{{l}}\n", "{l}\n", ".data\n{l}\n", "ok: " + ok + "\n{l}\n"):
                 text = wrap.format(l=line)
                 p.evaluations += 1
                 p.nontrivial += 1
